@@ -257,14 +257,10 @@ theorem C02_flags_step_mask (u : UfoFlags) (first : Bool) (st : LoopSt) (c : Com
           | exact hf0
           | (simp only [clearBits_testBit, setBits_testBit, h2, h9, h10, Bool.not_false, Bool.and_true, Bool.or_false]; exact hf0)
 
-/-- Full statement (kept visible):
-      `holdsCompositeFlags auto u cs (setCompositeFlags auto adv width u cs) = true`   for all auto, adv, width, u, cs
-    (references kept; flag words differ at most in ROUND_XY_TO_GRID / USE_MY_METRICS and, on the first component,
-    OVERLAP_COMPOUND; OVERLAP_COMPOUND of the first component = lib value when the key is present and the counts are equal;
-    count mismatch: only USE_MY_METRICS may differ).
-    Proved here: the reference part - every component keeps its base glyph, offset and 2x2 and the count is unchanged, for all
-    lib contents, hmtx advances and both settings of autoUseMyMetrics.  Missing: the three flag-mask clauses for the whole loop + autoUseMyMetrics (one loop pass: C02_flags_step_mask; they are evaluated by
-    the driver on every compiled composite of the glyph-lib stream, and the model's flag words are compared with the font's). -/
+/-- The reference part of the composite statement: every component keeps its base glyph, offset and 2x2 and the count is
+    unchanged, for all lib contents, hmtx advances and both settings of autoUseMyMetrics.  (The name is historical: the FULL
+    statement `holdsCompositeFlags auto u cs (setCompositeFlags auto adv width u cs) = true` is `C02_flags_composite_spec`
+    at the end of this file, proved for all inputs, loop and autoUseMyMetrics fallback included.) -/
 theorem C02_flags_composite_refs_partial (auto : Bool) (adv : String → Option Int) (width : Int) (u : UfoFlags) (cs : List CompTT) :
     (setCompositeFlags auto adv width u cs).map ref = cs.map ref := by
   unfold setCompositeFlags
@@ -278,5 +274,296 @@ theorem C02_flags_composite_refs_partial (auto : Bool) (adv : String → Option 
       · rw [auto_ref]; exact loop_ref ..
       · exact loop_ref ..
     · exact loop_ref ..
+
+
+/-! ### composites: the whole loop and the autoUseMyMetrics fallback -/
+
+/-- `compSame m p o` as a proposition: same reference, flag words bitwise equal outside `m` -/
+def R (m : Nat) (p o : CompTT) : Prop :=
+  ref o = ref p ∧ ∀ i, m.testBit i = false → o.flags.testBit i = p.flags.testBit i
+
+theorem compSame_iff (m : Nat) (p o : CompTT) : compSame m p o = true ↔ R m p o := by
+  unfold compSame R ref
+  rw [← sameOutside_iff]
+  simp only [Bool.and_eq_true, beq_iff_eq, Prod.mk.injEq]
+  constructor
+  · rintro ⟨⟨⟨⟨a, b⟩, c⟩, d⟩, e⟩; exact ⟨⟨a, b, c, d⟩, e⟩
+  · rintro ⟨⟨a, b, c, d⟩, e⟩; exact ⟨⟨⟨⟨a, b⟩, c⟩, d⟩, e⟩
+
+theorem R_refl (m : Nat) (p : CompTT) : R m p p := ⟨rfl, fun _ _ => rfl⟩
+theorem R_trans {m : Nat} {p q o : CompTT} (h1 : R m p q) (h2 : R m q o) : R m p o :=
+  ⟨h2.1.trans h1.1, fun i hi => (h2.2 i hi).trans (h1.2 i hi)⟩
+theorem R_mono {m m' : Nat} {p o : CompTT} (hm : ∀ i, m'.testBit i = false → m.testBit i = false) (h : R m p o) :
+    R m' p o := ⟨h.1, fun i hi => h.2 i (hm i hi)⟩
+
+theorem umm_le_rest (i : Nat) (h : compMaskRest.testBit i = false) : USE_MY_METRICS.testBit i = false := by
+  simp only [compMaskRest, Nat.testBit_or, Bool.or_eq_false_iff] at h; exact h.2
+theorem rest_le_mask (i : Nat) (h : compMask.testBit i = false) : compMaskRest.testBit i = false := by
+  simp only [compMask, compMaskRest, Nat.testBit_or, Bool.or_eq_false_iff] at h ⊢; exact h.1
+theorem umm_le_mask (i : Nat) (h : compMask.testBit i = false) : USE_MY_METRICS.testBit i = false :=
+  umm_le_rest i (rest_le_mask i h)
+
+theorem compSame_refl (m : Nat) (p : CompTT) : compSame m p p = true := (compSame_iff ..).2 (R_refl ..)
+theorem compSame_trans {m : Nat} {p q o : CompTT} (h1 : compSame m p q = true) (h2 : compSame m q o = true) :
+    compSame m p o = true := (compSame_iff ..).2 (R_trans ((compSame_iff ..).1 h1) ((compSame_iff ..).1 h2))
+theorem compSame_mono {m m' : Nat} {p o : CompTT} (hm : ∀ i, m'.testBit i = false → m.testBit i = false)
+    (h : compSame m p o = true) : compSame m' p o = true := (compSame_iff ..).2 (R_mono hm ((compSame_iff ..).1 h))
+
+theorem all2_refl {r : α → α → Bool} (h : ∀ a, r a a = true) (l : List α) : all2 r l l = true := by
+  induction l with
+  | nil => rfl
+  | cons a l ih => simp [all2, h a, ih]
+
+theorem all2_trans {r : α → β → Bool} {r' : β → γ → Bool} {r'' : α → γ → Bool}
+    (h : ∀ a b c, r a b = true → r' b c = true → r'' a c = true) (l1 : List α) :
+    ∀ (l2 : List β) (l3 : List γ), all2 r l1 l2 = true → all2 r' l2 l3 = true → all2 r'' l1 l3 = true := by
+  induction l1 with
+  | nil =>
+    intro l2 l3 h1 h2
+    cases l2 with
+    | nil => cases l3 with
+      | nil => rfl
+      | cons c l3 => simp [all2] at h2
+    | cons b l2 => simp [all2] at h1
+  | cons a l1 ih =>
+    intro l2 l3 h1 h2
+    cases l2 with
+    | nil => simp [all2] at h1
+    | cons b l2 =>
+      cases l3 with
+      | nil => simp [all2] at h2
+      | cons c l3 =>
+        simp only [all2, Bool.and_eq_true] at h1 h2 ⊢
+        exact ⟨h _ _ _ h1.1 h2.1, ih l2 l3 h1.2 h2.2⟩
+
+theorem all2_mono {r r' : α → β → Bool} (h : ∀ a b, r a b = true → r' a b = true) (l1 : List α) :
+    ∀ (l2 : List β), all2 r l1 l2 = true → all2 r' l1 l2 = true := by
+  induction l1 with
+  | nil => intro l2 h1; cases l2 with
+    | nil => rfl
+    | cons b l2 => simp [all2] at h1
+  | cons a l1 ih =>
+    intro l2 h1
+    cases l2 with
+    | nil => simp [all2] at h1
+    | cons b l2 =>
+      simp only [all2, Bool.and_eq_true] at h1 ⊢
+      exact ⟨h _ _ h1.1, ih l2 h1.2⟩
+
+/-- `autoUseMyMetrics` writes USE_MY_METRICS and nothing else, on every component list -/
+theorem C02_flags_auto_mask (adv : String → Option Int) (w : Int) (cs : List CompTT) :
+    all2 (compSame USE_MY_METRICS) cs (autoUseMyMetrics adv w cs) = true := by
+  induction cs with
+  | nil => rfl
+  | cons c rest ih =>
+    unfold autoUseMyMetrics
+    split
+    · simp only [all2, Bool.and_eq_true]
+      refine ⟨(compSame_iff ..).2 ⟨rfl, ?_⟩, all2_refl (compSame_refl _) rest⟩
+      intro i hi
+      simp [setBits_testBit, hi]
+    · simp only [all2, Bool.and_eq_true]
+      exact ⟨compSame_refl .., ih⟩
+
+/-- one pass of the loop body, relative to the flag word after the OVERLAP_COMPOUND step: only ROUND_XY_TO_GRID and
+    USE_MY_METRICS may differ -/
+theorem step_rest (u : UfoFlags) (first : Bool) (st : LoopSt) (c : CompTT) (id : Option String) (i : Nat)
+    (hi : compMaskRest.testBit i = false) :
+    (stepComp u first st c id).1.flags.testBit i = (ovlStep u first c.flags).testBit i := by
+  have h9 := umm_le_rest i hi
+  have h2 : ROUND_XY_TO_GRID.testBit i = false := by
+    simp only [compMaskRest, Nat.testBit_or, Bool.or_eq_false_iff] at hi; exact hi.1
+  unfold stepComp
+  cases id with
+  | none => rfl
+  | some j =>
+    simp only
+    cases compLib u j with
+    | none => rfl
+    | some e =>
+      simp only
+      split <;> split <;> (try split) <;>
+        first
+          | rfl
+          | (simp only [clearBits_testBit, setBits_testBit, h2, h9, Bool.not_false, Bool.and_true, Bool.or_false])
+
+theorem ovlStep_false (u : UfoFlags) (f : Nat) : ovlStep u false f = f := by
+  unfold ovlStep; split <;> simp_all
+
+/-- a component that is not the first: only ROUND_XY_TO_GRID / USE_MY_METRICS may differ -/
+theorem step_rest_false (u : UfoFlags) (st : LoopSt) (c : CompTT) (id : Option String) :
+    compSame compMaskRest c (stepComp u false st c id).1 = true := by
+  refine (compSame_iff ..).2 ⟨step_ref .., fun i hi => ?_⟩
+  rw [step_rest u false st c id i hi, ovlStep_false]
+
+/-- the loop from the second component on: references kept, flag words differ at most in ROUND_XY_TO_GRID / USE_MY_METRICS -/
+theorem C02_flags_loop_rest (u : UfoFlags) (cs : List CompTT) : ∀ (st : LoopSt) (ids : List (Option String)),
+    all2 (compSame compMaskRest) cs (loopComps u false st cs ids).1 = true := by
+  induction cs with
+  | nil => intro st ids; unfold loopComps; rfl
+  | cons c rest ih =>
+    intro st ids
+    cases ids with
+    | nil => unfold loopComps; exact all2_refl (compSame_refl _) _
+    | cons id ids =>
+      unfold loopComps
+      simp only [all2, Bool.and_eq_true]
+      exact ⟨step_rest_false .., ih ..⟩
+
+theorem and_two_pow_ite (x k : Nat) : x &&& 2 ^ k = if x.testBit k then 2 ^ k else 0 := by
+  apply Nat.eq_of_testBit_eq; intro i
+  by_cases h : k = i
+  · subst h; cases hx : x.testBit k <;> simp [Nat.testBit_and, Nat.testBit_two_pow, hx]
+  · cases hx : x.testBit k <;> simp [Nat.testBit_and, Nat.testBit_two_pow, h]
+
+theorem ovl_testBit (j : Nat) : OVERLAP_COMPOUND.testBit j = decide (10 = j) := by
+  unfold OVERLAP_COMPOUND; rw [Nat.testBit_two_pow]
+
+theorem bitsAre_ovl (v : Bool) (x : Nat) : bitsAre v x OVERLAP_COMPOUND = true ↔ x.testBit 10 = v := by
+  unfold bitsAre hasBits noBits OVERLAP_COMPOUND
+  rw [and_two_pow_ite]
+  cases x.testBit 10 <;> cases v <;> simp
+
+theorem ovl_not_rest : compMaskRest.testBit 10 = false := by decide
+theorem ovl_not_umm : USE_MY_METRICS.testBit 10 = false := by decide
+
+/-- the first component: at most the three bits differ; OVERLAP_COMPOUND is the lib value when the key is present,
+    untouched when absent -/
+theorem C02_flags_step_first (u : UfoFlags) (st : LoopSt) (c : CompTT) (id : Option String) :
+    compSame compMask c (stepComp u true st c id).1 = true ∧
+    (match u.overlap with
+     | some v => bitsAre v (stepComp u true st c id).1.flags OVERLAP_COMPOUND = true
+     | none => compSame compMaskRest c (stepComp u true st c id).1 = true) := by
+  refine ⟨(compSame_iff ..).2 ⟨step_ref .., (sameOutside_iff ..).1 (C02_flags_step_mask ..)⟩, ?_⟩
+  cases ho : u.overlap with
+  | some v =>
+    simp only
+    rw [bitsAre_ovl, step_rest u true st c id 10 ovl_not_rest]
+    simp [ovlStep, ho, putBits_testBit, ovl_testBit]
+  | none =>
+    simp only
+    refine (compSame_iff ..).2 ⟨step_ref .., fun i hi => ?_⟩
+    rw [step_rest u true st c id i hi]
+    simp [ovlStep, ho]
+
+/-- the optional `autoUseMyMetrics` pass -/
+theorem au_mask (auto : Bool) (adv : String → Option Int) (w : Int) (cs : List CompTT) :
+    all2 (compSame USE_MY_METRICS) cs (if auto then autoUseMyMetrics adv w cs else cs) = true := by
+  cases auto
+  · exact all2_refl (compSame_refl _) _
+  · exact C02_flags_auto_mask ..
+
+/-- composing a loop result `r0 :: rs` with a pass `out` that writes only USE_MY_METRICS -/
+theorem compose_first (p r0 : CompTT) (ps rs out : List CompTT)
+    (h1 : compSame compMask p r0 = true) (h2 : all2 (compSame compMaskRest) ps rs = true)
+    (h3 : all2 (compSame USE_MY_METRICS) (r0 :: rs) out = true) :
+    ∃ o os, out = o :: os ∧ compSame compMask p o = true ∧ all2 (compSame compMaskRest) ps os = true ∧
+      compSame USE_MY_METRICS r0 o = true := by
+  cases out with
+  | nil => simp [all2] at h3
+  | cons o os =>
+    simp only [all2, Bool.and_eq_true] at h3
+    refine ⟨o, os, rfl, compSame_trans h1 (compSame_mono umm_le_mask h3.1), ?_, h3.1⟩
+    exact all2_trans (r := compSame compMaskRest) (r' := compSame USE_MY_METRICS) (r'' := compSame compMaskRest) (fun a b c hab hbc => compSame_trans hab (compSame_mono umm_le_rest hbc)) ps rs os h2 h3.2
+
+theorem loop_cons (u : UfoFlags) (first : Bool) (st : LoopSt) (c : CompTT) (cs : List CompTT) (id : Option String)
+    (ids : List (Option String)) :
+    (loopComps u first st (c :: cs) (id :: ids)).1 =
+      (stepComp u first st c id).1 :: (loopComps u false (stepComp u first st c id).2 cs ids).1 := by
+  rw [loopComps]
+
+/-- counts differ: the method is `autoUseMyMetrics` alone -/
+theorem set_mismatch (auto : Bool) (adv : String → Option Int) (width : Int) (u : UfoFlags) (cs : List CompTT)
+    (h : cs.length ≠ u.ids.length) :
+    setCompositeFlags auto adv width u cs = if auto then autoUseMyMetrics adv width cs else cs := by
+  unfold setCompositeFlags
+  simp [h]
+
+/-- counts equal: the loop's result, then at most a pass that writes USE_MY_METRICS -/
+theorem set_match (auto : Bool) (adv : String → Option Int) (width : Int) (u : UfoFlags) (cs : List CompTT)
+    (h : cs.length = u.ids.length) :
+    all2 (compSame USE_MY_METRICS) (loopComps u true { used := false, contains := false } cs u.ids).1
+      (setCompositeFlags auto adv width u cs) = true := by
+  unfold setCompositeFlags
+  simp only [h, bne_self_eq_false, Bool.false_eq_true, if_false]
+  split
+  · exact au_mask ..
+  · exact all2_refl (compSame_refl _) _
+
+/-- **the model meets the predicate, composites**: for every component list, every lib content, all hmtx advances and both
+    settings of `autoUseMyMetrics`, what `_set_composite_flags` leaves has the pen's references, flag words that differ from
+    the pen's at most in ROUND_XY_TO_GRID / USE_MY_METRICS and (first component) OVERLAP_COMPOUND; counts equal: OVERLAP_COMPOUND
+    of the first component is the lib value (absent: the pen's); counts differ: only USE_MY_METRICS may differ, and nothing
+    with `auto` off. -/
+theorem C02_flags_composite_spec (auto : Bool) (adv : String → Option Int) (width : Int) (u : UfoFlags) (cs : List CompTT) :
+    holdsCompositeFlags auto u cs (setCompositeFlags auto adv width u cs) = true := by
+  by_cases hlen : cs.length = u.ids.length
+  · have hout := set_match auto adv width u cs hlen
+    cases cs with
+    | nil =>
+      have hl : (loopComps u true { used := false, contains := false } [] u.ids).1 = [] := by unfold loopComps; rfl
+      rw [hl] at hout
+      cases hs : setCompositeFlags auto adv width u [] with
+      | nil => simp [holdsCompositeFlags, hlen]
+      | cons o os => rw [hs] at hout; simp [all2] at hout
+    | cons p ps =>
+      cases hids : u.ids with
+      | nil => simp [hids] at hlen
+      | cons id ids =>
+        rw [hids, loop_cons] at hout
+        obtain ⟨hf1, hf2⟩ := C02_flags_step_first u { used := false, contains := false } p id
+        obtain ⟨o, os, ho, hA, hB, hC⟩ := compose_first p _ ps _ _ hf1 (C02_flags_loop_rest u ps _ ids) hout
+        have hcond : (match u.overlap with
+            | some v => bitsAre v o.flags OVERLAP_COMPOUND
+            | none => compSame compMaskRest p o) = true := by
+          cases hov : u.overlap with
+          | some v =>
+            simp only [hov] at hf2 ⊢
+            rw [bitsAre_ovl] at hf2 ⊢
+            rw [((compSame_iff ..).1 hC).2 10 ovl_not_umm]; exact hf2
+          | none =>
+            simp only [hov] at hf2 ⊢
+            exact compSame_trans hf2 (compSame_mono umm_le_rest hC)
+        unfold holdsCompositeFlags
+        rw [ho]
+        simp only [hA, hB, hlen, Bool.and_true, Bool.true_and, beq_self_eq_true, if_true]
+        exact hcond
+  · rw [set_mismatch auto adv width u cs hlen]
+    have hA := au_mask auto adv width cs
+    have h2 : (if auto then all2 (compSame USE_MY_METRICS) cs (if auto then autoUseMyMetrics adv width cs else cs)
+        else (if auto then autoUseMyMetrics adv width cs else cs) == cs) = true := by
+      cases auto
+      · simp
+      · simpa using hA
+    have hne : (cs.length == u.ids.length) = false := by simpa using hlen
+    cases cs with
+    | nil =>
+      cases hs : (if auto then autoUseMyMetrics adv width [] else []) with
+      | nil => simp [holdsCompositeFlags, all2]
+      | cons o os => rw [hs] at hA; simp [all2] at hA
+    | cons p ps =>
+      obtain ⟨o, os, ho, hB, hC, _⟩ := compose_first p p ps ps _ (compSame_refl ..) (all2_refl (compSame_refl _) _) hA
+      unfold holdsCompositeFlags
+      rw [ho] at h2 ⊢
+      simp only [hB, hC, hne, h2, Bool.and_true, if_true, Bool.false_eq_true, if_false]
+
+/-- non-vacuity of the two case lemmas: a count mismatch and a count match that exist -/
+example : setCompositeFlags true (fun _ => none) 0 ⟨none, [none], none⟩ [] = [] := by
+  rw [set_mismatch _ _ _ _ _ (by decide)]; rfl
+example : all2 (compSame USE_MY_METRICS) (loopComps ⟨some true, [], none⟩ true ⟨false, false⟩ [] []).1
+    (setCompositeFlags true (fun _ => none) 0 ⟨some true, [], none⟩ []) = true := set_match _ _ _ _ _ rfl
+/-- `compose_first` with its hypotheses met (one component, identity passes) -/
+example (p : CompTT) : ∃ o os, [p] = o :: os ∧ compSame compMask p o = true ∧ all2 (compSame compMaskRest) [] os = true ∧
+    compSame USE_MY_METRICS p o = true :=
+  compose_first p p [] [] [p] (compSame_refl ..) rfl (all2_refl (compSame_refl _) _)
+/-- the relation lemmas on a pair that differs (USE_MY_METRICS set): mono and trans are used on non-trivial instances -/
+example (p : CompTT) : compSame compMask p { p with flags := setBits p.flags USE_MY_METRICS } = true :=
+  compSame_mono umm_le_mask ((compSame_iff ..).2 ⟨rfl, fun i hi => by simp [setBits_testBit, hi]⟩)
+
+/-- what the theorem buys on a concrete glyph: two components, overlap key True, second component's lib says useMyMetrics -
+    the first gets 0x400, the second 0x200, nothing else moves, and no autoUseMyMetrics pass runs (the key was seen) -/
+example :
+    (setCompositeFlags true (fun _ => some 500) 500 ⟨some true, [none, some "k"], some [("k", ⟨none, some true⟩)]⟩
+      [⟨"a", 0, 0, (1, 0, 0, 1), 4⟩, ⟨"b", 10, 0, (1, 0, 0, 1), 4⟩]).map (·.flags) = [0x404, 0x204] := by decide
 
 end Ufo2ft.C02.Flags
